@@ -150,3 +150,47 @@ Theorem C12_inline_reference_names_word : forall d own sys s p rd w,
       exists i, dic_of w = 0 /\ word_of w = N.of_nat i /\ CodecResolveProofs.first_match sys i s p rd).
 Proof. exact (LexSetResolveProofs.inline_reference_loaded C12_fact_layout C12_fact_guards). Qed.
 Print Assumptions C12_inline_reference_names_word.
+
+(* ---- the plugin set-up sequence over the POS table (plugin/mod.rs Plugins::load) ---- *)
+(* Plugins::load sets the OOV providers up BEFORE the path-rewrite plugins (order of the struct fields, re-read every run) *)
+Fact C12_fact_plugin_order : plugin_order_ok = true.
+Proof. vm_compute. reflexivity. Qed.
+
+(* so the set-up the code performs is "providers first" *)
+Theorem C12_setup_is_oov_first : forall pl oov rw, setup pl oov rw = setup_oov_first pl oov rw.
+Proof. exact (setup_is_oov_first C12_fact_plugin_order). Qed.
+Print Assumptions C12_setup_is_oov_first.
+
+(* for ANY POS table, providers and path-rewrite plugins: when the providers load, every POS a path-rewrite plugin names that is
+   in the dictionary or was asked for by ANY provider (registered with userPOS allow, or known) resolves, the whole set-up
+   succeeds, and every path-rewrite id names the POS asked for *)
+Theorem C12_setup_registered_pos_resolvable : forall pl oov rw pl' ids,
+  load_plugins pl oov = Some (pl', ids) ->
+  (forall p, In p rw -> In p pl \/ exists allow, In (p, allow) oov) ->
+  exists rids, setup_oov_first pl oov rw = Some (pl', ids, rids) /\
+               forall k p, nth_error rw k = Some p -> nth_error pl' (N.to_nat (nth k rids 0)) = Some p.
+Proof. exact (setup_oov_first_total C12_fact_guards). Qed.
+Print Assumptions C12_setup_registered_pos_resolvable.
+
+(* ids handed out earlier never change (the providers only append; compare C12_plugin_pos_preserved / C12_pos_list_shape):
+   ids of the dictionary's own POS, of every provider and of every path-rewrite plugin name the same POS after the set-up *)
+Theorem C12_setup_ids_stable : forall pl oov rw pl' ids rids,
+  setup_oov_first pl oov rw = Some (pl', ids, rids) ->
+  (forall i p, nth_error pl i = Some p -> nth_error pl' i = Some p) /\
+  (forall k p allow, nth_error oov k = Some (p, allow) -> nth_error pl' (N.to_nat (nth k ids 0)) = Some p) /\
+  (forall k p, nth_error rw k = Some p -> nth_error pl' (N.to_nat (nth k rids 0)) = Some p).
+Proof. exact (setup_ids_stable C12_fact_guards). Qed.
+Print Assumptions C12_setup_ids_stable.
+
+(* the documented order loads everything the swapped order loads, with the same table and ids ... *)
+Theorem C12_setup_rewrite_first_weaker : forall pl oov rw r,
+  setup_rewrite_first pl oov rw = Some r -> setup_oov_first pl oov rw = Some r.
+Proof. exact (setup_rewrite_first_weaker C12_fact_guards). Qed.
+Print Assumptions C12_setup_rewrite_first_weaker.
+
+(* ... and strictly more: the swapped order is refuted by a configuration the documented order loads
+   (dictionary POS [0]; a provider registers 5 with userPOS allow; a path-rewrite plugin names 5) *)
+Theorem C12_setup_swapped_refuted :
+  exists pl oov rw, setup_oov_first pl oov rw <> None /\ setup_rewrite_first pl oov rw = None.
+Proof. exact setup_swapped_refuted. Qed.
+Print Assumptions C12_setup_swapped_refuted.
